@@ -190,6 +190,13 @@ pub fn suite_dec(t: &mut Tracer, tier: Tier, seed: u64) {
         }
     }
 
+    // -- a response's field section all the way to its status code (the client calls code() at once)
+    for st in ["", "0", "7", "99", "100", "200", "299", "404", "599", "600", "999", "000", "099", "1000", "65535", "65536",
+               "65736", "4294967496", "2e2", "+200", "abc", "20\u{0660}"] {
+        response_adm(t, &[(":status", st)]);
+        response_adm(t, &[(":status", st), ("x-extra", "1")]);
+    }
+    response_adm(t, &[]);
     // -- stream headers
     for ty in gen::boundary_values() {
         let mut h = gen::enc_varint(ty);
